@@ -13,7 +13,7 @@ import Artela.Model.Memory
   differently in the model as well.
 
   Instructions that touch the world (SLOAD/SSTORE, BALANCE, EXT*, LOG, CALL*, CREATE*, SELFDESTRUCT,
-  BLOCKHASH, SELFBALANCE, TLOAD/TSTORE) are outside this layer: a run that reaches one ends with
+  BLOCKHASH, SELFBALANCE) are outside this layer: a run that reaches one ends with
   `Halt.unmodelled`, and the frame machine (M5) models what happens around nested frames.
   The journal instructions 0xe0–0xe7 dispatch to `Journal.exec` (M2).
 
@@ -122,6 +122,7 @@ inductive Instr where
   | jump | jumpi | pc | msize | gas | jumpdest
   | mcopy
   | keccak
+  | tload | tstore
   | push (n : Nat)            -- PUSH0 … PUSH32
   | dup (n : Nat) | swap (n : Nat)
   | ret | revert
@@ -188,6 +189,8 @@ def decode (exec : String) (op : Nat) : Option Instr :=
   else if exec = "opJumpdest" then some .jumpdest
   else if exec = "opMcopy" then some .mcopy
   else if exec = "opKeccak256" then some .keccak
+  else if exec = "opTload" then some .tload
+  else if exec = "opTstore" then some .tstore
   else if exec = "opPush0" then some (.push 0)
   else if exec = "opPush1" then some (.push 1)
   else if exec = "makePush" then some (.push (op - 0x5f))
@@ -229,6 +232,8 @@ structure IEnv (World : Type) where
   table : Nat → Option Row           -- the fork's instruction table (undefined opcodes: `none`)
   mkEnv : World → Bytes → JEnv       -- the view a journal instruction takes of the world
   keccak : Bytes → Word := fun _ => 0 -- keccak-256, uninterpreted
+  tget : World → Word → Word := fun _ _ => 0          -- transient storage of the executing contract (EIP-1153), part of the world
+  tset : World → Word → Word → World := fun w _ _ => w
 
 inductive Halt where
   | stop
@@ -551,6 +556,17 @@ def exec (env : IEnv World) (i : Instr) (s : IState World) : Out (IState World) 
       | .err e => .panic e
       | .panic p => .panic p
     | _ => stackPanic
+  | .tload =>
+    match s.stack with
+    | loc :: r => s.cont (env.tget s.world loc % W256 :: r)
+    | _ => stackPanic
+  | .tstore =>
+    -- `if interpreter.readOnly { return nil, ErrWriteProtection }` comes before the pops
+    if s.readOnly then .halt (.err "write protection") s.gas
+    else
+      match s.stack with
+      | loc :: val :: r => .next { s with stack := r, pc := s.pc + 1, world := env.tset s.world loc val }
+      | _ => stackPanic
   | .push n =>
     let data := (env.code.drop (s.pc + 1)).take n
     s.cont (beNat (rightPad data n) :: s.stack) n
